@@ -7,8 +7,9 @@ per limit, FLOW_CONTROL_ERROR exactly beyond the limits the implementation annou
 MAX_STREAM_DATA / MAX_DATA frames, and connection credit == bytes consumed + abandoned.
 -/
 import Uquic.Oracle.Frame
+import Uquic.Model.FlowInit
 
-open Uquic.Oracle
+open Uquic.Oracle Uquic.Model.FlowInit
 
 structure SndG where
   credit : Int := 0
@@ -24,6 +25,11 @@ structure RcvG where
   appRead : Int := 0
   cancelled : Bool := false
   reset : Bool := false
+  reliable : Int := 0           -- reliable size of the RESET_STREAM_AT frames accepted (only ever reduced)
+  /-- bytes this stream is suspected to leak through the listed finding `cancel_then_reset_at`:
+      CancelRead first (final size unknown), then a RESET_STREAM_AT whose reliable size lies beyond
+      the read position — the stream completes without `Abandon` -/
+  leak : Int := 0
 
 structure G where
   started : Bool := false
@@ -35,17 +41,21 @@ structure G where
   cAdv : Int := 0
   cMaxws : Int := 0
   dead : Bool := false
+  client : Bool := false
+  peer : Params := {}
+  cfg : Config := ⟨0, 0, 0, 0⟩
 
 abbrev Fail := String × String × String
 def fail (n d : String) : Fail := (n, "-", d)
 
 def sumI (l : List Int) : Int := l.foldl (· + ·) 0
 
-/-- bytes of a receive stream that count as returned credit: what the application read, or the whole
-    final size once the stream was reset or its read side cancelled and the final size is known -/
+/-- bytes of a receive stream that count as returned credit: what the application read — or the whole
+    final size once the final size is known and the rest will never be read: the read side was
+    cancelled, or the stream was reset and everything up to the reliable size has been read -/
 def RcvG.credited (r : RcvG) : Int :=
   match r.final with
-  | some f => if r.cancelled || r.reset then f else r.appRead
+  | some f => if r.cancelled || (r.reset && decide (r.appRead ≥ r.reliable)) then f else r.appRead
   | none => r.appRead
 
 def dumpField (impl : String) (i : Nat) : Option Int :=
@@ -124,15 +134,50 @@ def step (g : G) (op impl : String) : G × StepOut :=
       (match dumpField impl 3 with
        | some br =>
          let tot := sumI (g'.rcv.map (·.credited))
-         if !g'.dead && br ≠ tot then [fail "credit_conserved" s!"connection bytesRead={br} but bytes consumed or abandoned on the streams={tot}"] else []
+         let leak := sumI (g'.rcv.map (·.leak))
+         if !g'.dead && br ≠ tot then
+           -- narrow classifier of the listed finding: the whole difference is explained by streams that were
+           -- cancelled locally and then reset with a reliable size beyond the read position
+           let cls := if leak > 0 && br + leak = tot then "cancel_then_reset_at" else "-"
+           [("credit_conserved", cls, s!"connection bytesRead={br} but bytes consumed or abandoned on the streams={tot}" ++
+              (if cls ≠ "-" then s!" ({leak} bytes on streams completed by RESET_STREAM_AT after CancelRead)" else ""))]
+         else []
        | none => [])
     (g', { model := impl, tags := tags, fails := fails ++ extra })
   if res == ["skip"] then (g, { model := impl }) else
   match w with
-  | ["init", crw, cmax] =>
-    echo { g with started := true, cAdv := intOf crw, cMaxws := max (intOf crw) (intOf cmax) } ["init"] []
-  | ["snd.new", sw] => echo { g with snd := g.snd ++ [{ credit := intOf sw, credits := [intOf sw] }] } ["snd.new"] []
-  | ["rcv.new", rw, mx] => echo { g with rcv := g.rcv ++ [{ adv := intOf rw, maxws := max (intOf rw) (intOf mx) }] } ["rcv.new"] []
+  | ["init", persp, crw, cmax, srw, smax, pmd, pbl, pbr, pu] =>
+    let peer : Params := { maxData := intOf pmd, bidiLocal := intOf pbl, bidiRemote := intOf pbr, uni := intOf pu }
+    echo { g with started := true, client := persp == "c", peer := peer,
+                  cfg := ⟨intOf srw, intOf smax, intOf crw, intOf cmax⟩,
+                  cAdv := intOf crw, cMaxws := max (intOf crw) (intOf cmax),
+                  cCredit := peer.maxData, cCredits := [peer.maxData] } ["init"] []
+  | ["open", kind] =>
+    if res.headD "" == "E:other" then echo g ["open:error"] [] else
+    let fld (k : String) : String := (res.findSome? fun x => if x.startsWith k then some (x.drop k.length).toString else none).getD "-"
+    let id := natOf (fld "id=")
+    let hasSend := kind != "pu"
+    let hasRecv := kind != "lu"
+    -- the RFC's assignment (from the operation alone) ...
+    let wantSw : Int := match kind with
+      | "lb" => g.peer.bidiRemote | "pb" => g.peer.bidiLocal | _ => g.peer.uni
+    let wantRw : Int := g.cfg.initialStreamReceiveWindow
+    -- ... and the model of the closure (from the stream id the implementation chose)
+    let mSw := newFlowControllerSendWindow g.client g.peer id
+    let mRw := ((newFlowControllerReceiveWindow g.cfg).map (·.1)).getD (-1)
+    let idOk := (isUni id == (kind == "lu" || kind == "pu")) &&
+      (byClient id == (if kind == "lb" || kind == "lu" then g.client else !g.client))
+    let f0 := if !idOk then [fail "initial_windows_match_parameters" s!"open {kind}: stream id {id} is not of that kind (client={g.client})"] else []
+    let f1 := if hasSend && fld "sw=" != toString wantSw then
+      [fail "initial_windows_match_parameters" s!"open {kind} (stream {id}, client={g.client}): initial send window {fld "sw="}, the peer's parameter for this kind of stream is {wantSw} (bidi_local {g.peer.bidiLocal}, bidi_remote {g.peer.bidiRemote}, uni {g.peer.uni})"] else []
+    let f2 := if hasRecv && fld "rw=" != toString wantRw then
+      [fail "initial_windows_match_parameters" s!"open {kind} (stream {id}): initial receive window {fld "rw="}, we advertised {wantRw}"] else []
+    let g1 := if hasSend then { g with snd := g.snd ++ [{ credit := wantSw, credits := [wantSw] }] } else g
+    let g2 := if hasRecv then { g1 with rcv := g1.rcv ++ [{ adv := wantRw, maxws := max wantRw g.cfg.maxStreamReceiveWindow }] } else g1
+    let model := " ".intercalate (res.map fun x =>
+      if x.startsWith "sw=" && hasSend then s!"sw={mSw}" else if x.startsWith "rw=" && hasRecv then s!"rw={mRw}" else x)
+    let (g3, out) := echo g2 [s!"open:{kind}"] (f0 ++ f1 ++ f2)
+    (g3, { out with model := model ++ (match impl.splitOn " | " with | _ :: d :: _ => " | " ++ d | _ => "") })
   | ["w", _, _] => echo g [if res == ["started"] then "write:blocking" else "write:buffered"] []
   | ["close", _] => echo g ["close"] []
   | ["smax", i, v] =>
@@ -161,6 +206,7 @@ def step (g : G) (op impl : String) : G × StepOut :=
       let fin := fin == "1"
       let got := res.headD ""
       if g.dead then echo g ["frame:after-error"] [] else
+      if got == "gone" then echo g ["frame:gone"] [] else
       if got == "E:other" then echo { g with dead := true } ["frame:other-error"] [] else
       let expect := recvExpect g r e fin false
       let fails := if got ≠ expect then
@@ -169,7 +215,7 @@ def step (g : G) (op impl : String) : G × StepOut :=
         echo { g with rcv := g.rcv.set j { r with highest := max r.highest e, final := if fin then some e else r.final } }
           [if e > r.highest then "frame:new" else "frame:old"] fails
       else echo { g with dead := true } [s!"frame:{got}"] fails
-  | ["rst", j, fs, _] =>
+  | ["rst", j, fs, rel, _] =>
     let j := natOf j
     match g.rcv[j]? with
     | none => echo g [] []
@@ -177,11 +223,24 @@ def step (g : G) (op impl : String) : G × StepOut :=
       let e := intOf fs
       let got := res.headD ""
       if g.dead then echo g ["rst:after-error"] [] else
+      if got == "gone" then echo g ["rst:gone"] [] else
+      let rel := intOf rel
       let expect := recvExpect g r e true true
       let fails := if got ≠ expect then
         [fail "receiver_exact" s!"receive stream {j}: RESET_STREAM final size {e} answered {got}, expected {expect} (announced stream limit {r.adv}, highest {r.highest}, final {r.final}, announced connection limit {g.cAdv})"] else []
       if got == "ok" then
-        echo { g with rcv := g.rcv.set j { r with highest := max r.highest e, final := some e, reset := true } } ["rst:ok"] fails
+        -- a read side that was cancelled locally ignores the reset; the reliable size can only be reduced
+        -- the reliable size can only be reduced (first RESET_STREAM_AT sets it)
+        let newRel := if (!r.reset && r.reliable == 0) || rel < r.reliable then rel else r.reliable
+        let r' : RcvG := if r.cancelled then
+            -- a read side that was cancelled locally ignores the reset error. Listed finding: if this frame makes
+            -- the final size known and its reliable size is beyond the read position, nothing abandons the rest
+            -- (until a later RESET_STREAM_AT lowers the reliable size to the read position)
+            { r with highest := max r.highest e, final := some e, reliable := newRel,
+                     leak := if r.appRead ≥ newRel then 0 else if r.final.isNone then e - r.appRead else r.leak } else
+          { r with highest := max r.highest e, final := some e, reset := true, reliable := newRel }
+        echo { g with rcv := g.rcv.set j r' }
+          [if rel = 0 then "rst:ok" else if rel > r.appRead then "rst:reliable-ahead" else "rst:reliable-behind"] fails
       else echo { g with dead := true } [s!"rst:{got}"] fails
   | ["rd", j, _] =>
     let j := natOf j
